@@ -57,7 +57,9 @@ def main():
                 "level_note": ("Trusted: CPython float arithmetic, numpy/scipy, Hypothesis, and the oracle stated in "
                                "DESIGN.md section 4 for this property (each oracle has a self-test that exits 2 on mismatch). "
                                "Runs the current working tree of /repo (VERIF_REPO overrides) in a fresh interpreter."),
-                "technique": TECH[pid],
+                "technique": TECH[pid] + "; a slice of the same generated exploration is repeated in child interpreters started "
+                             "in other environments (python -O, other hash seeds / time zones / locale, application-set numpy print "
+                             "options and decimal context)",
             })
         else:
             na.append({"property_id": pid, "reason": "check not built yet in this revision (work in progress; "
